@@ -134,6 +134,11 @@ func (tdsChan *Channel) Reset() {
 		return
 	}
 
+	tdsChan.reset()
+}
+
+// reset is Reset for callers that already hold the read lock.
+func (tdsChan *Channel) reset() {
 	tdsChan.CurrentHeaderType = TDS_BUF_NORMAL
 	tdsChan.queueTx.Reset()
 	tdsChan.lastPkgTx = nil
@@ -494,7 +499,10 @@ func (tdsChan *Channel) SendRemainingPackets(ctx context.Context) error {
 
 	// SendRemainingPackets is only called when completing sending
 	// packets to the server and preparing to receive the answer.
-	defer tdsChan.Reset()
+	//
+	// The read lock is already held - acquiring it again in Reset would
+	// deadlock with a Close waiting for the write lock in between.
+	defer tdsChan.reset()
 	return tdsChan.sendPackets(ctx, false)
 }
 
